@@ -189,8 +189,14 @@ func (s *scheduler) pick(exclude *gor) *gor {
 			rs = f
 		}
 		if len(rs) > 0 {
-			if s.r.ex.Opts.ExploreSched && len(rs) > 1 {
+			// delay-bounded exploration: the default scheduler runs the lowest-numbered runnable
+			// goroutine; every other pick costs one deviation from the budget
+			if s.r.ex.Opts.ExploreSched && len(rs) > 1 && s.preemptions < s.r.ex.Opts.Preemptions {
 				k := s.r.choose(len(rs))
+				if k != 0 {
+					s.preemptions++
+					s.log(fmt.Sprintf("deviate: pick g%d(%s) instead of g%d(%s)", rs[k].id, rs[k].name, rs[0].id, rs[0].name))
+				}
 				return rs[k]
 			}
 			return rs[0]
